@@ -758,8 +758,58 @@ fn bds05_in_df20(c: &mut Ctx, a: &Args, rng: &mut Rng) {
     }
 }
 
+/// The fields as jet1090, decode1090 and the Python binding report them: after decode_positions has worked on the
+/// history of the aircraft. Every field of a positioned record (the position set aside) must still be the one decoded
+/// from the record's own frame, which the sweeps above compare with the encoder.
+fn after_positioning(c: &mut Ctx, a: &Args, rng: &mut Rng) {
+    let tr = crate::oracle::geo::transitions();
+    for _ in 0..a.budget(30_000, 3_000_000) {
+        let p = super::c07::positioned_plan(rng, &tr);
+        positioned_one(c, &p.frames, &p.stamps, p.reference, &p.what);
+    }
+}
+
+fn positioned_one(c: &mut Ctx, frames: &[Vec<u8>], stamps: &[f64], reference: Option<[f64; 2]>, what: &str) {
+    use rs1090::decode::cpr::{decode_positions, Position};
+    use rs1090::decode::TimedMessage;
+    let mut v: Vec<TimedMessage> = vec![];
+    let mut alone: Vec<Value> = vec![];
+    for (f, ts) in frames.iter().zip(stamps) {
+        if let Ok(Ok(m)) = guarded(|| Message::try_from(f.as_slice())) {
+            alone.push(serde_json::to_value(&m).unwrap_or(Value::Null));
+            v.push(TimedMessage { timestamp: *ts, frame: f.clone(), message: Some(m), metadata: vec![], decode_time: None });
+        }
+    }
+    let rp = json!({"origin": "positioned", "frames": frames.iter().map(|f| hexs(f)).collect::<Vec<_>>(), "timestamps": stamps, "reference": reference.map(|x| x.to_vec()), "frame": frames.first().map(|f| hexs(f))});
+    if guarded(|| decode_positions(&mut v, reference.map(|x| Position { latitude: x[0], longitude: x[1] }), &None)).is_err() {
+        c.r.class("positioned:decode_positions-panicked(judged by C06/C07)");
+        return;
+    }
+    for (t, before) in v.iter().zip(&alone) {
+        c.r.evaluations += 1;
+        let after = t.message.as_ref().map(|m| serde_json::to_value(m).unwrap_or(Value::Null)).unwrap_or(Value::Null);
+        let mut bad = vec![];
+        if let (Some(x), Some(y)) = (before.as_object(), after.as_object()) {
+            for (k, val) in x {
+                if k != "latitude" && k != "longitude" && y.get(k) != Some(val) {
+                    bad.push(format!("{k}: {} in the frame, {} in the record", val, y.get(k).cloned().unwrap_or(Value::Null)));
+                }
+            }
+        }
+        if bad.is_empty() {
+            c.r.class("positioned:fields-unchanged");
+            if after.get("latitude").map(|x| x.is_number()).unwrap_or(false) {
+                c.r.class("positioned:fields-unchanged:with-decoded-position");
+            }
+        } else {
+            let key = bad[0].split(':').next().unwrap_or("").to_string();
+            c.r.violation(&format!("C03:{key}:after-decode_positions"), format!("record of {} ({what}): {}", hexs(&t.frame), bad.join("; ")), rp.clone());
+        }
+    }
+}
+
 pub fn run(a: &Args, r: &mut Report) {
-    r.rule = "per field: every code of the field (or the stated stratified sample in quick) is encoded by the independent standards-based encoder, with plausible companions for Comm-B registers, decoded by the real Message::try_from and read back from serde_json::to_value; compared with the physical value within one quantisation step (exactly, for integer-valued fields). distinct_nontrivial = distinct (field, code) pairs that round-tripped".into();
+    r.rule = "per field: every code of the field (or the stated stratified sample in quick) is encoded by the independent standards-based encoder, with plausible companions for Comm-B registers, decoded by the real Message::try_from and read back from serde_json::to_value; compared with the physical value within one quantisation step (exactly, for integer-valued fields). in addition histories of 2-7 position reports of one aircraft go through decode_positions and every field of every record (the position set aside) must still be the one decoded from the record's own frame. distinct_nontrivial = distinct (field, code) pairs that round-tripped".into();
     r.assumptions.push("sentinel codes (0 = no information, 127 in the GNSS/baro difference, movement 0 / 125..127) are not judged".into());
     r.assumptions.push("Comm-B registers are judged inside the decoder's documented plausibility envelope only (roll <= 50 deg, GS <= 600 kt, TAS in [80,500], |GS-TAS| <= 200, IAS 1..500, Mach <= 1, |vrate| <= 6000 ft/min, consistent roll/turn-rate signs, IAS/Mach consistency)".into());
     r.assumptions.push("call signs: the decoder strips spaces; undefined 6-bit codes must give '#'".into());
@@ -767,6 +817,13 @@ pub fn run(a: &Args, r: &mut Report) {
         let v: Value = serde_json::from_str(&std::fs::read_to_string(p).unwrap()).unwrap();
         let f = hex::decode(v["replay"]["frame"].as_str().unwrap()).unwrap();
         let mut c = Ctx { r, k: 0, shard: 0, nshards: 1, thorough: false };
+        if let Some(fs) = v["replay"]["frames"].as_array() {
+            let frames: Vec<Vec<u8>> = fs.iter().filter_map(|x| hex::decode(x.as_str()?).ok()).collect();
+            let stamps: Vec<f64> = v["replay"]["timestamps"].as_array().map(|t| t.iter().filter_map(|x| x.as_f64()).collect()).unwrap_or_default();
+            let reference = v["replay"]["reference"].as_array().and_then(|p| Some([p.first()?.as_f64()?, p.get(1)?.as_f64()?]));
+            positioned_one(&mut c, &frames, &stamps, reference, "replay");
+            return;
+        }
         if let Some(js) = decode(&mut c, &f, "replay") {
             c.r.extra.insert("replay_json".into(), js.clone());
             if let Some(exp) = v["replay"].get("expected").and_then(|e| e.as_f64()) {
@@ -780,6 +837,7 @@ pub fn run(a: &Args, r: &mut Report) {
     }
     let mut rng = Rng::new(a.seed, a.shard, "C03");
     let mut c = Ctx { r, k: 0, shard: a.shard, nshards: a.nshards, thorough: a.thorough() };
+    after_positioning(&mut c, a, &mut rng);
     addresses(&mut c, a, &mut rng);
     callsigns(&mut c, a, &mut rng);
     altitudes(&mut c);
@@ -795,6 +853,6 @@ pub fn run(a: &Args, r: &mut Report) {
     bds05_in_df20(&mut c, a, &mut rng);
     c.r.sample(json!({"field": "groundspeed/track (BDS 0,9 subtype 1)", "frame": hexs(&frames::df17(5, AA, &frames::me_velocity_gs(VelCommon { subtype: 1, vr: 1, diff: 1, ..Default::default() }, 1, 10, 0, 160))), "encoded": {"ew": -9, "ns": 159}}));
     c.r.sample(json!({"field": "selected_mcp (BDS 4,0 in DF20)", "frame": hexs(&frames::df20(0, 0, 0, frames::ac13_from_n(1440), &frames::mb_bds40(Bds40 { mcp: Some(2250), ..Default::default() }), ADDR)), "encoded_ft": 36000}));
-    let mand = ["ok:aa:DF17", "ok:aa:DF18", "ok:aa:DF11", "ok:callsign:BDS08", "ok:callsign:BDS20/DF20", "ok:callsign:BDS20/DF21", "ok:altitude:BDS05", "ok:altitude:DF4", "ok:altitude:DF20", "ok:squawk:DF5", "ok:squawk:DF21", "ok:squawk:BDS61", "ok:groundspeed:BDS09", "ok:track:BDS09", "ok:heading:BDS09:st3", "ok:IAS:BDS09:st3", "ok:TAS:BDS09:st3", "ok:vertical_rate:BDS09", "ok:geo_minus_baro:BDS09", "ok:movement:BDS06", "ok:track:BDS06", "ok:selected_altitude:BDS62", "ok:barometric_setting:BDS62", "ok:selected_heading:BDS62", "ok:selected_mcp:BDS40", "ok:barometric_setting:BDS40", "ok:roll:BDS50", "ok:track:BDS50", "ok:groundspeed:BDS50", "ok:TAS:BDS50", "ok:track_rate:BDS50", "ok:heading:BDS60", "ok:IAS:BDS60", "ok:Mach:BDS60", "ok:vrate_barometric:BDS60", "ok:vrate_inertial:BDS60", "ok:bds05-label(altitudes equal)", "ok:bds05-not-labelled"];
+    let mand = ["ok:aa:DF17", "ok:aa:DF18", "ok:aa:DF11", "ok:callsign:BDS08", "ok:callsign:BDS20/DF20", "ok:callsign:BDS20/DF21", "ok:altitude:BDS05", "ok:altitude:DF4", "ok:altitude:DF20", "ok:squawk:DF5", "ok:squawk:DF21", "ok:squawk:BDS61", "ok:groundspeed:BDS09", "ok:track:BDS09", "ok:heading:BDS09:st3", "ok:IAS:BDS09:st3", "ok:TAS:BDS09:st3", "ok:vertical_rate:BDS09", "ok:geo_minus_baro:BDS09", "ok:movement:BDS06", "ok:track:BDS06", "ok:selected_altitude:BDS62", "ok:barometric_setting:BDS62", "ok:selected_heading:BDS62", "ok:selected_mcp:BDS40", "ok:barometric_setting:BDS40", "ok:roll:BDS50", "ok:track:BDS50", "ok:groundspeed:BDS50", "ok:TAS:BDS50", "ok:track_rate:BDS50", "ok:heading:BDS60", "ok:IAS:BDS60", "ok:Mach:BDS60", "ok:vrate_barometric:BDS60", "ok:vrate_inertial:BDS60", "ok:bds05-label(altitudes equal)", "ok:bds05-not-labelled", "positioned:fields-unchanged:with-decoded-position"];
     c.r.extra.insert("mandatory".into(), json!(mand.to_vec()));
 }
